@@ -20,8 +20,6 @@ structure Inv (s : ShDir) (g : Fifo) : Prop where
   locked   : s.arb.cnt ≠ 0 → ∃ L, L < c.m ∧ (∀ j, j < c.m → s.dec.selR.getD j false = (j == L)) ∧
                g L = List.replicate s.arb.cnt s.arb.grant ∧ ∀ j, j < c.m → j ≠ L → g j = []
 
-theorem inv_init : Inv c (init c rd) Fifo.empty → True := fun _ => trivial
-
 /-- The decoder's answer on the bus when exactly slave `L` is selected: slave `L`'s signals. -/
 theorem busSM_some (s : ShDir) (x : DirIn) (L : Nat) (hL : L < c.m)
     (hsel : ∀ j, j < c.m → selOf c rd s x j = (j == L)) : busSM c rd s x = x.ss L := by
@@ -423,9 +421,21 @@ theorem step (hd : Disjoint c) (s : ShDir) (g : Fifo) (x : DirIn) (hinv : Inv c 
       simpa using hselR j hj
     · exact env
 
-theorem inv_reset : Inv c (init c rd) Fifo.empty := by
-  refine ⟨?_, rfl, ?_, ?_, ?_⟩
-  all_goals sorry
+theorem inv_reset (hn : 0 < c.n) : Inv c (init c rd) Fifo.empty := by
+  refine ⟨hn, rfl, Nat.zero_le _, ?_, ?_⟩
+  · intro _ j _; rfl
+  · intro h; exact absurd rfl h
+
+/-- Assume/guarantee over every run from every state that agrees with its scoreboard. -/
+theorem holds_of_inv (hd : Disjoint c) :
+    ∀ (ins : List DirIn) (s : ShDir) (g : Fifo), Inv c s g → Holds (machine c rd) c rd true s g ins := by
+  intro ins
+  induction ins with
+  | nil => intro s g _; trivial
+  | cons x xs ih =>
+    intro s g hinv env
+    obtain ⟨hr, hinv'⟩ := step c rd hd s g x hinv env
+    exact ⟨hr, ih _ _ hinv'⟩
 
 end Shared
 end Litex.Axi.Lite
